@@ -4,17 +4,14 @@
 
    * hex_shape (valences 4 / 6): invariant over the same class of histories as C15's tet_shape (`_partial`: everything
      except physical removal in slow immediate mode and set_face / set_cell).
-   * the checked add_cell: case analysis proved for every state and list (rejection leaves the mesh unchanged, what is
-     stored); "accepted => documented layout" is proved for the direct path in the form "the stored list passes the
-     library's ordering check in the new state" and, for the re-ordering path, decided over ALL 720 orderings of the
-     canonical cube's halffaces (whole domain of permutations, one cube); for arbitrary meshes the re-ordering path is
-     carried by the lock-step correspondence (`_partial`).
-   * "accepted with check => layout" is REFUTED in general (C16_checked_add_cell_layout_refuted: a closed surface of six
-     quads that is not a cube is accepted through the re-ordering path and stored with its first two halffaces sharing
-     a vertex; replayed on the library).
-   * the design-phase lead is decided: a list whose first halfface has a neighbour for each of its four halfedges never
-     reaches the invalid handle (C16_reordering_has_no_invalid_handle), a list that is not a hexahedron can
-     (C16_checked_add_cell_invalid_handle_refuted: UB on live quad halffaces - a finding, replayed on the library).
+   * the checked add_cell (after the fix "checked hex add_cell must reject what the re-ordering could not bring into
+     order"): C16_checked_add_cell_stores_ordered_or_rejects - for every state and list it returns the invalid handle with
+     the mesh unchanged, or appends one cell whose stored list passes the ordering check (neighbours of the first halfface
+     2,4,3,5, of the second 3,4,2,5) in the new state and touches no face.  The documented `layout` additionally says that
+     halffaces 2k / 2k+1 share no vertex: that clause is decided for all 720 orderings of the canonical cube
+     (C16_every_ordering_of_a_cube_is_reordered) and carried by the lock step + the definition-based oracle on every
+     proper cube otherwise.  The two former counterexamples (invalid handle stored / indexed; a closed six-quad surface
+     that is not a cube accepted) are rejected now: Examples C16_invalid_handle_list_rejected, C16_non_cube_surface_rejected.
    * hex_vertices: first four proved for every cell whose first halfface has four different halfedges; the full cube
      pattern is decided on the canonical cube and carried by the correspondence + oracle otherwise (`_partial`). *)
 From Coq Require Import ZArith List.
@@ -38,51 +35,26 @@ Proof. exact (kshape_live 4 6). Qed.
 Print Assumptions C16_hex_shape_is_four_and_six.
 
 (* ---- the topology-checked add_cell *)
-Theorem C16_checked_add_cell_stores_or_rejects : forall s hfs,
-  hex_add_cell s hfs true = HUB \/
-  hex_add_cell s hfs true = HOk s None \/
-  exists s' l, hex_add_cell s hfs true = HOk s' (Some (nc s)) /\ cells s' = cells s ++ [l] /\ faces s' = faces s /\
-               length l = 6 /\
-               ((check_halfface_ordering s hfs = true /\ l = hfs) \/
-                (check_halfface_ordering s hfs = false /\
-                 exists b, reorder_bottom s hfs = Some b /\ all_some (upd 1 (Some b) (reorder_top s hfs)) = Some l)).
-Proof. exact hex_add_cell_checked_cases. Qed.
-Print Assumptions C16_checked_add_cell_stores_or_rejects.
+Theorem C16_checked_add_cell_stores_ordered_or_rejects : forall s hfs s' r, hex_add_cell s hfs true = (s', r) ->
+  (r = None /\ s' = s) \/
+  (exists l, r = Some (nc s) /\ cells s' = cells s ++ [l] /\ faces s' = faces s /\ cell_at s' (nc s) = l /\ length l = 6 /\
+             check_halfface_ordering s' l = true /\
+             (l = hfs \/ exists b, reorder_bottom s hfs = Some b /\ all_some (upd 1 (Some b) (reorder_top s hfs)) = Some l)).
+Proof. exact hex_add_cell_checked. Qed.
+Print Assumptions C16_checked_add_cell_stores_ordered_or_rejects.
 
-Theorem C16_layout_direct_path_partial : forall s hfs s' c,
-  check_halfface_ordering s hfs = true -> hex_add_cell s hfs true = HOk s' (Some c) ->
-  cell_at s' c = hfs /\ check_halfface_ordering s' (cell_at s' c) = true.
-Proof. exact hex_add_cell_direct_stores_ordered. Qed.
-Print Assumptions C16_layout_direct_path_partial.
-
-Theorem C16_reordering_has_no_invalid_handle : forall s hfs e0 e1 e2 e3 a0 a1 a2 a3,
+Theorem C16_reordering_places_neighbours : forall s hfs e0 e1 e2 e3 a0 a1 a2 a3,
   halfface s (hx hfs 0) = [e0; e1; e2; e3] ->
   get_adjacent_halfface s (Some (hx hfs 0)) (Some e0) hfs = Some a0 ->
   get_adjacent_halfface s (Some (hx hfs 0)) (Some e1) hfs = Some a1 ->
   get_adjacent_halfface s (Some (hx hfs 0)) (Some e2) hfs = Some a2 ->
   get_adjacent_halfface s (Some (hx hfs 0)) (Some e3) hfs = Some a3 ->
-  hex_add_cell s hfs true <> HUB.
-Proof. exact hex_add_cell_no_ub. Qed.
-Print Assumptions C16_reordering_has_no_invalid_handle.
-
-(* full statement (refuted): forall s hfs, hex_valid s (HK (AddCell hfs true)) = true -> hex_step s (HK (AddCell hfs true)) <> HRUB *)
-Theorem C16_checked_add_cell_invalid_handle_refuted :
-  let s := hex_run ub_witness in
-  hex_valid s (HK (AddCell [5; 7; 9; 11; 3; 12] true)) = true /\ hex_step s (HK (AddCell [5; 7; 9; 11; 3; 12] true)) = HRUB.
-Proof. exact checked_add_cell_ub_refuted. Qed.
-Print Assumptions C16_checked_add_cell_invalid_handle_refuted.
-
-(* full statement (refuted): forall s hfs s' c, hex_step s (HK (AddCell hfs true)) = HROk s' (Some c) -> hex_layout s' (cell_at s' c) = true *)
-Theorem C16_checked_add_cell_layout_refuted :
-  let s := hex_run weird_sphere in
-  exists s', hex_step s (HK (AddCell [0; 2; 4; 6; 8; 10] true)) = HROk s' (Some 0) /\
-             cell_at s' 0 = [0; 10; 2; 6; 4; 8] /\ hex_layout s' (cell_at s' 0) = false /\
-             hex_vertices s' 0 = Some [0; 3; 2; 1; 4; 5; 6; 0].
-Proof. exact checked_add_cell_layout_refuted. Qed.
-Print Assumptions C16_checked_add_cell_layout_refuted.
+  reorder_top s hfs = [Some (hx hfs 0); None; Some a0; Some a2; Some a1; Some a3].
+Proof. exact reorder_top_four. Qed.
+Print Assumptions C16_reordering_places_neighbours.
 
 Theorem C16_every_ordering_of_a_cube_is_reordered : forall p, In p (perms [0; 2; 4; 6; 8; 10]) ->
-  exists s', hex_add_cell cube_faces p true = HOk s' (Some 0) /\
+  exists s', hex_add_cell cube_faces p true = (s', Some 0) /\
              hex_layout s' (cell_at s' 0) = true /\ check_halfface_ordering s' (cell_at s' 0) = true /\
              nth 0 (cell_at s' 0) 0 = nth 0 p 0.
 Proof. exact checked_add_cell_reorders_every_permutation. Qed.
@@ -159,6 +131,16 @@ Example C16_cube_from_eight_vertices_has_layout :
   check_halfface_ordering cube_mesh (cell_at cube_mesh 0) = true /\
   hex_vertices cube_mesh 0 = Some [3; 0; 1; 2; 5; 6; 7; 4] /\ nc cube_faces = 0 /\ nf cube_faces = 6.
 Proof. exact cube_mesh_layout. Qed.
+
+Example C16_invalid_handle_list_rejected :
+  let s := hex_run ub_witness in
+  hex_valid s (HK (AddCell [5; 7; 9; 11; 3; 12] true)) = true /\ hex_step s (HK (AddCell [5; 7; 9; 11; 3; 12] true)) = HROk s None.
+Proof. exact invalid_handle_list_rejected. Qed.
+
+Example C16_non_cube_surface_rejected :
+  let s := hex_run weird_sphere in
+  hex_step s (HK (AddCell [0; 2; 4; 6; 8; 10] true)) = HROk s None /\ cell_check s [0; 10; 2; 6; 4; 8] = true.
+Proof. exact non_cube_surface_rejected. Qed.
 
 Example C16_all_720 : length (perms [0; 2; 4; 6; 8; 10]) = 720.
 Proof. exact (proj1 all_720_permutations_ok). Qed.
